@@ -786,6 +786,9 @@ def hook(name, *a):
 def _obj_setattr_raw(I, args, kw):
     o, k, v = args
     E = _E()
+    if getattr(o, 'is_sarr', False) and isinstance(k, str):
+        o.attrs[k] = v
+        return
     if not isinstance(o, E.Obj) or not isinstance(k, str):
         raise Unsupported('object.__setattr__ on %r' % (o,))
     o.attrs[k] = v
